@@ -110,6 +110,52 @@ def run(tier):
             B2.rec_bec2_read(rec, text, list(pa.decs.values()) + list(pb.decs.values()), privs, orc, True, splice=1)
             B2.rec_bec2_read(rec, text, list(pa.decs.values()), privs, orc, True, splice=1)      # only A opened: accepted, B passes through
             nspl += 1
+        # one decryptor object reads a genuine file and then forged ones that REUSE material of the genuine ECC block:
+        # (1) same ephemeral point, altered wrapped-key bytes (the ECC block now unwraps to another key than the update block),
+        # (2) a header with the SAME tag twice (two ECC blocks for two selectors) whose first block carries another key
+        for _ in range(3 if tier == "quick" else 20):
+            pe = G.Plan(r, rcpts, ["ecc", "update"], explicit_key=True)
+            fe = Bec2File(G.gen_content(r), pe.blocks, pe.key)
+            se = io.StringIO()
+            fe.write_file(se, pe.encs_w)
+            seams.take()
+            decs = list(pe.decs.values())                      # the SAME decryptor objects for all reads below
+            B2.rec_bec2_read(rec, se.getvalue(), decs, pe.ecc_privs, orc, True, auth=B2.proj_bec2(fe), label="genuine-first")
+            blks = B2.split_header(B2.to_binary_of_text(se.getvalue()))
+            (t_ecc, raw_ecc), (t_upd, raw_upd) = blks[0], blks[1]
+            forged = bytearray(raw_ecc)
+            forged[-1] ^= 1
+            hdr = BEC2_FILE_SIG + bytes([t_ecc, len(forged)]) + bytes(forged) + bytes([t_upd, len(raw_upd)]) + raw_upd + b"\x00\x00"
+            s2 = io.StringIO()
+            Bf3File.write_bf3_format(s2, {}, hdr + fe.bf3file.to_binary(len(hdr), fe.session_key))
+            B2.rec_bec2_read(rec, s2.getvalue(), decs, pe.ecc_privs, orc, True, splice=1, label="same-ephemeral-other-wrapped-key")
+            B2.rec_bec2_read(rec, se.getvalue(), decs, pe.ecc_privs, orc, True, auth=B2.proj_bec2(fe), label="genuine-again")
+            # (2) duplicate tag: ECC(sel a -> K') + ECC(sel b -> K), body under K, both selectors decryptable
+            sa, sb = r.sample(range(4), 2)
+            (pra, pua), (prb, pub) = rcpts.pick(r), rcpts.pick(r)
+            kprime = G.key_with_class(r, "generic")
+            from bec2format.bec2file import InitEccAuthBlock as _IE
+            ra = _IE(sa).pack(kprime, [B2.enc_ecc_pub(sa, pua)[0]])
+            rb = _IE(sb).pack(fe.session_key, [B2.enc_ecc_pub(sb, pub)[0]])
+            seams.take()
+            hdr = BEC2_FILE_SIG + bytes([3, len(ra)]) + ra + bytes([3, len(rb)]) + rb + b"\x00\x00"
+            s3 = io.StringIO()
+            Bf3File.write_bf3_format(s3, {}, hdr + fe.bf3file.to_binary(len(hdr), fe.session_key))
+            B2.rec_bec2_read(rec, s3.getvalue(), [B2.dec_ecc(sa, pra), B2.dec_ecc(sb, prb)], {sa: pra, sb: prb}, orc, True, splice=1, label="duplicate-tag-different-keys")
+        # ephemeral keys whose shared secret has leading zero bytes (see C09): every block must still wrap the file key
+        from ..ephsearch import find_leading_zero_ephemerals
+        for (priv, pub) in rcpts.pairs[-2:]:
+            for e_scalar in find_leading_zero_ephemerals(pub, r, want=1):
+                sel = r.randrange(4)
+                pl = G.Plan(r, rcpts, ["update"], explicit_key=True)
+                from bec2format.bec2file import InitEccAuthBlock as _IE2
+                pl.blocks.append(_IE2(sel))
+                e, spec = B2.enc_ecc_pub(sel, pub)
+                pl.encs_w.append(e)
+                pl.meta.append({"tag": 3, "sel": sel, "explicit": True, "pub_der": B(G.HDR + pub), "priv": priv})
+                fz = Bec2File(G.gen_content(r), pl.blocks, pl.key)
+                seams.forced.append(e_scalar)
+                G.rec_bec2_write(rec, seams, orc, fz, pl.meta, pl.encs_w, C.enc_specs(pl))
         # binding self-tests
         can = dict(hist.events[0])
         can.update({"op": "newfile", "explicit": 0, "draws": [hist.events[0]["key"] or [1] * 16], "key": [9] * 16, "grp": 999})
